@@ -35,7 +35,7 @@ ALL_FEATURES = {
     "array_pop", "early_return", "shadowing", "else_if", "assert_stmt", "array_pass", "struct_pass",
     "string_escapes", "effectful_logic", "continue_in_for", "print_enum", "min_max", "array_slice",
     "array_struct", "float_arith", "deep_expr", "array_alias", "str_substring", "char_at", "global_shadow",
-    "unused_results", "long_strings", "self_compare", "tuple_pass", "effectful_args", "shadow_type_change", "out_of_scope_reference", "array_float", "struct_array_field", "fn_returning_composite", "print_float", "loop_nest", "global_init_expr", "guard_idiom", "ext_builtins", "field_of_call",
+    "unused_results", "long_strings", "self_compare", "tuple_pass", "effectful_args", "shadow_type_change", "out_of_scope_reference", "array_float", "struct_array_field", "fn_returning_composite", "print_float", "loop_nest", "global_init_expr", "guard_idiom", "ext_builtins", "field_of_call", "global_init_call", "enum_wide_values", "enum_ordering", "exit_in_match_arm",
 }
 
 
@@ -864,7 +864,8 @@ def gen_bool(g, sc, d):
         en = g.pick(g.enums)
         t = ("enum", en[0])
         g.use("cmp_enum")
-        return ("bin", g.pick(["==", "!="]), gen_expr(g, sc, t, 0), gen_expr(g, sc, t, 0), g.style())
+        ops = ["==", "!="] + (["<", "<=", ">", ">="] if g.has("enum_ordering") else [])
+        return ("bin", g.pick(ops), gen_expr(g, sc, t, 0), gen_expr(g, sc, t, 0), g.style())
     if k == 13:
         tp = temp_projection(g, sc, "bool", d) if g.chance(1, 3) else None
         if tp:
@@ -1039,6 +1040,10 @@ def gen_typedefs(g):
             name = "T_E%d" % (len(g.enums) + 1)
             n = g.i(2, 4)
             vals = sorted(set(g.i(0, 20) for _ in range(n)))
+            if g.has("enum_wide_values") and g.chance(1, 3):
+                # explicit values outside one byte / 16 bits and negative ones (all inside the 32-bit range every engine shares)
+                vals = sorted(set(g.pick([-5, -1, 0, 3, 255, 256, 65535, 65536, 70000, 2147483647]) for _ in range(n)))
+                g.use("enum_wide_values")
             g.enums.append((name, [("K%d" % j, v) for j, v in enumerate(vals)]))
     if g.has("unions"):
         for _ in range(g.i(0, 2)):
@@ -1356,6 +1361,12 @@ def gen_match(g, sc, cx, out, budget):
                 body.append(("println", ("field", ("var", b), f)))
         # binder has a struct-like type: expose its fields through a pseudo struct
         inner.vars[b] = (("variant", v[0][1], vn), False, {})
+        if cx.loop_depth > 0 and g.has("break") and g.has("exit_in_match_arm") and g.chance(1, 3):
+            which = "break"
+            if g.has("continue") and g.b() and (not cx.in_for or g.gate("continue_in_for")):
+                which = "continue"
+            body.append(("if", gen_bool_pure(g, sc, 1), [(which,)], None))
+            g.use(which + "_in_match_arm")
         body += gen_block(g, inner, Ctx(cx.ret, cx.loop_depth, cx.in_for, cx.depth + 1, cx.fuel), budget // 3)
         arms.append((vn, b, body))
     out.append(("match", ("var", n), v[0][1], arms))
@@ -1557,8 +1568,18 @@ def gen_program(g):
                 sc.vars[n] = (f["ret"], False, {})
     body.append(("return", ("int", g.i(0, 255))))
     main = {"name": "main", "params": [], "ret": "int", "body": body, "recursive": False, "callable": False}
+    funcs = g.funcs + [main]
+    if g.has("global_init_call") and g.has("globals") and g.has("functions") and g.chance(1, 4):
+        # a global whose initialiser calls a user function with a visible effect: it must run exactly once, before main,
+        # in every engine and every stored form of the program
+        probe = {"name": "f_ginit", "params": [("a", "int")], "ret": "int", "recursive": False, "callable": False,
+                 "body": [("println", ("var", "a")), ("return", ("bin", "+", ("var", "a"), ("int", 1), "p"))]}
+        funcs = [probe] + funcs
+        for _ in range(g.i(1, 2)):
+            g.globals.append((g.fresh("g"), "int", ("call", "f_ginit", [("int", g.i(2, 9))])))
+        g.use("global_init_call")
     prog = {"structs": g.structs, "enums": g.enums, "unions": g.unions, "globals": g.globals,
-            "funcs": g.funcs + [main], "features": dict(g.used), "excluded": dict(g.excluded)}
+            "funcs": funcs, "features": dict(g.used), "excluded": dict(g.excluded)}
     return prog
 
 
